@@ -622,6 +622,8 @@ class InterpCore:
                 return r
         if isinstance(fn, FuncV):
             return self.call_function(fn, args, kwargs, run, node)
+        if isinstance(fn, WrapV) and fn.kind == "contextmanager":
+            return self.call_contextmanager(fn.func, args, kwargs, run, node)
         if isinstance(fn, BoundV):
             return self.call(fn.func, [fn.self_] + list(args), kwargs, run, node, higher_order)
         if isinstance(fn, (LibFn, LibClass)) and any(isinstance(a, GenV) for a in list(args) + list(kwargs.values())) and \
